@@ -14,6 +14,7 @@ import (
 type modInfo struct {
 	whole   bool
 	targets []string // loop-invariant base refs
+	guards  []string // optional per-target conditions (parallel to targets; may be shorter)
 	fresh   bool     // some targets are objects allocated inside the loop / callee
 }
 
@@ -590,8 +591,16 @@ func (fr *Frame) havoc(st, pre *State, mods map[string]*modInfo) {
 		default:
 			t := old
 			elemSort := innerSort(hs)
-			for _, tg := range m.targets {
-				t = sto(t, tg, vc.fresh("hv", elemSort))
+			for ti, tg := range m.targets {
+				g := ""
+				if ti < len(m.guards) {
+					g = m.guards[ti]
+				}
+				nv := vc.fresh("hv", elemSort)
+				if g != "" {
+					nv = ite(g, nv, sel(t, tg))
+				}
+				t = sto(t, tg, nv)
 				if vc.logStores {
 					vc.storeLog = append(vc.storeLog, storeRec{heap: name, base: tg})
 				}
